@@ -440,6 +440,16 @@ fn specs(run: &Run) -> Vec<AssetSpec> {
         }
         v.push(mk(&format!("{label}-box-fixture"), fmt, fx, "box", false, 2));
     }
+    // JPEG with restart intervals (DRI + RSTn) under box hash: the scan data behind each restart marker must be covered
+    v.push(mk("jpeg-box-rst-fixture", "image/jpeg", "earth_apollo17.jpg", "box", false, 2));
+    for k in 0..64u64 {
+        let seed = (run.seed ^ 0x5151).wrapping_add(k);
+        let d = vh::assets::synth("jpeg", &mut vh::rng::SplitMix64::new(seed), 1500);
+        if d.desc.contains("restart") || d.desc.contains("rst") || d.desc.contains("RST") {
+            v.push(mk("jpeg-box-rst-synth", "image/jpeg", &format!("synth:jpeg:{seed}"), "box", false, 2));
+            break;
+        }
+    }
     // claim v1, update manifests, merkle
     v.push(mk("jpeg-data-v1", "image/jpeg", "no_manifest.jpg", "data", false, 1));
     v.push(mk("png-data-update", "image/png", "libpng-test.png", "data", true, 2));
